@@ -4,7 +4,21 @@ COQ_TARGETS = ["Props/Properties_C11.vo", "Extract/ExtractPromise.vo"]
 PROPS_FILES = ["Props/Properties_C11.v"]
 VARIANT = "fixed"
 RUNS = [dict(name="promise", harness="c11", driver="promise", model_ml="promise_model",
-             driver_args=["-variant", VARIANT])]
+             driver_args=["-variant", VARIANT, "-incfile", "build/run/C11-promise/inconclusive.txt"])]
+
+
+def post(res, stats_all, all_mism):
+    # histories whose set of allowed outcomes could not be computed within the exploration budget: they were
+    # checked against the invariants only (see docs/C11.md); the count goes into the evidence
+    import os
+    p = os.path.join(os.path.dirname(os.path.dirname(os.path.abspath(__file__))), "build", "run", "C11-promise",
+                     "inconclusive.txt")
+    n = 0
+    if os.path.exists(p):
+        n = len([l for l in open(p) if l.strip()])
+    for k, s in stats_all.items():
+        if k.endswith("/gen") or k.endswith("/replay"):
+            s["x_inconclusive_explorations"] = n
 EXPLANATION = ("Theorems over all operation lists and all interleavings of the small-step model coq/Promise/Promise.v of "
                "answer.go's Promise (explicit mu, the promise states, ongoingCalls/callsStopped, proxy client table, "
                "clientsRefs, the promised client hooks); the model is tied to the code by running the extracted model and the "
